@@ -1,6 +1,7 @@
 package props
 
 import (
+	"strings"
 	"bytes"
 	"encoding/base64"
 	"encoding/binary"
@@ -46,14 +47,14 @@ type c14Case struct {
 	Ops []c14Op   `json:"ops"`
 }
 
-var c14Names = []string{"alice", "Alice", "ALICE", "bob", "carol", "dave", "admin", "Admin", "nobody"}
+var c14Names = []string{"alice", "Alice", "ALICE", "bob", "carol", "dave", "admin", "Admin", strings.Repeat("long.account.name-", 8), strings.Repeat("u", 129), strings.Repeat("w", 256), "nobody"}
 var c14Passwords = []string{"", "pw-a", "pw-b", "Pässwörd-ü", "pw-a", "correct horse", "correct horse ", " pw-a", "pw-b\n", "\tpw-b", " "}
 
 func genC14(t *rapid.T) c14Case {
 	var c c14Case
 	c.Naming = rapid.SampledFrom([]string{"", "port", "port", "v6port", "plain"}).Draw(t, "naming")
 	for i, n := 0, rapid.IntRange(1, 5).Draw(t, "nusers"); i < n; i++ {
-		c.DB = append(c.DB, c14User{rapid.SampledFrom(c14Names[:8]).Draw(t, "uname"), rapid.SampledFrom(c14Passwords).Draw(t, "upass")})
+		c.DB = append(c.DB, c14User{rapid.SampledFrom(c14Names[:11]).Draw(t, "uname"), rapid.SampledFrom(c14Passwords).Draw(t, "upass")})
 	}
 	db := map[string]string{}
 	for _, u := range c.DB {
@@ -96,7 +97,7 @@ func genC14(t *rapid.T) c14Case {
 			if rapid.IntRange(0, 9).Draw(t, "badTail") == 0 {
 				op.B64Tail = rapid.SampledFrom([]string{"!", "\"", " QUJD", "====", "-_", "\x00", "%3D"}).Draw(t, "b64tail")
 			}
-			op.Layout = rapid.SampledFrom([]string{"", "", "", "noversion", "short", "nomic"}).Draw(t, "layout")
+			op.Layout = rapid.SampledFrom([]string{"", "", "", "noversion", "short", "nomic", "v1"}).Draw(t, "layout")
 			if rapid.IntRange(0, 5).Draw(t, "oddFlags") == 0 {
 				for _, f := range []uint32{0x40000000, 0x10, 0x20, 0x00000002, 0x00000004} {
 					if rapid.Bool().Draw(t, "set") {
@@ -227,7 +228,7 @@ func runC14(c c14Case) *Violation {
 				msg, blob, proof := ntlmx.Authenticate(ntlmx.AuthSpec{User: op.Claimed, Domain: op.Domain, Workstation: "WS",
 					Key: ntlmx.NTOWFv2(op.KeyPass, op.KeyUser, op.Domain), ServerChallenge: src.ServerChallenge, TargetInfo: src.TargetInfo,
 					Timestamp: []byte{0, 0x80, 0x3e, 0xd5, 0xde, 0xb1, 0x9d, 0x01}, ClientChallenge: cc, Layout: op.Layout, FlagsSet: op.FlagsSet, FlagsClear: op.FlagsClear})
-				m = c14Sent{msg: base64.StdEncoding.EncodeToString(msg) + op.B64Tail, undecodable: op.B64Tail != "", claimed: op.Claimed, domain: op.Domain, proof: proof, blob: blob, oddFlags: op.FlagsSet != 0 || op.FlagsClear != 0}
+				m = c14Sent{msg: base64.StdEncoding.EncodeToString(msg) + op.B64Tail, undecodable: op.B64Tail != "", claimed: op.Claimed, domain: op.Domain, proof: proof, blob: blob, oddFlags: op.FlagsSet != 0 || op.FlagsClear != 0 || op.Layout == "v1"} // (the oldest layout is not supported by the library underneath: outcome of a correct proof left open)
 				sent = append(sent, m)
 			}
 			r, err, pv := call(op.Session, m.msg)
